@@ -198,6 +198,12 @@ impl<T: Elem> World<T> {
                         interpose(&mut cv, v);
                         cv
                     }
+                    // CVec::default() is the empty vector without a buffer
+                    None if n == 0 && cap == 0 && (v + payload::next_id()) % 2 == 0 => ledger::track(|| {
+                        let mut cv = CVec::<T>::default();
+                        ledger::untracked(|| interpose(&mut cv, v));
+                        cv
+                    }),
                     None => ledger::track(|| {
                         let mut std_vec: Vec<T> = Vec::with_capacity(cap);
                         for i in 0..n {
